@@ -29,6 +29,7 @@ def run(chk, F):
     import c07
     chk.guard("fallback-order", "Resolver::lookup", lambda: c07.family(chk, F, "Resolver::lookup", "loader::load::Resolver::lookup_exact", "loader::load::Resolver::lookup_with_prefix", "loader::load::Resolver::lookup", {}))
     chk.guard("definitions-not-overwritten", "load_defs", lambda: L.definitions_precedence(chk, F))
+    chk.guard("long-prefix-yields-to-a-unit", "load_defs", lambda: L.units_precedence(chk, F))
     chk.guard("exponent-is-exact", "loader evaluators", lambda: L.exact_exponents(chk, F))
     chk.guard("definition-grammar", "gnu_units parser", lambda: L.definition_grammar(chk, F))
     chk.guard("unique-names", "data", lambda: datafiles.unique_names(chk))
